@@ -110,6 +110,15 @@ Theorem C16_get_plain : forall n cfg opts key o,
   sget (S n) cfg opts key = Ok (o_value o).
 Proof. exact get_plain. Qed.
 
+(* histories: read-back is a function of the current table only (sget takes nothing else), so the M4 theorems hold after any
+   sequence of reads, command lines and assignments; an assignment config[sec][key] = v changes exactly that option *)
+Theorem C16_assign_current : forall cfg sec key v cfg',
+  assign cfg sec key v = Ok cfg' ->
+  (exists o, opt_at cfg sec key = Some o /\ opt_at cfg' sec key = Some (set_value o v)) /\
+  (forall s' k', s' <> sec \/ k' <> key -> opt_at cfg' s' k' = opt_at cfg s' k') /\
+  shape cfg' = shape cfg.
+Proof. exact assign_current. Qed.
+
 (* fuel: an answer other than OutOfFuel does not depend on the fuel *)
 Theorem C16_fuel : forall n m cfg opts key r,
   sget n cfg opts key = r -> r <> OutOfFuel -> (n <= m)%nat -> sget m cfg opts key = r.
